@@ -240,6 +240,9 @@ theorem step_not_oob {s : State} {op : Op} (hw : WF s) (hpre : op.srcReadable) :
   | parseU64 c base =>
     simp only [step]
     exact bind_not_oob (curParseU64_not_oob (hw.curOk c)) (fun _ _ => by simp)
+  | normalizeSep b =>
+    simp only [step]
+    exact bind_not_oob (bufNormalizeSep_not_oob (hw.bufOk b)) (fun _ _ => by simp)
   | hashIgnoreCase c =>
     simp only [step]
     exact bind_not_oob (curHashIgnoreCase_not_oob (hw.curOk c)) (fun _ _ => by simp)
